@@ -167,8 +167,30 @@ func TestVerif_C05_Distribution(t *testing.T) {
 				plan = append(plan, c05Step{Kind: "sync", A: i, B: to})
 			}
 		}
+		// in half of the cases one device deactivates the group some time after its activation (what the service's
+		// DeactivateGroup does: close the group context; the stores are opened again but not activated), receives entries
+		// meanwhile or not, and activates again at the end
+		if rapid.Bool().Draw(rt, "reactivation") {
+			c := rapid.IntRange(0, len(devs)-1).Draw(rt, "reactivated-device")
+			at := 0
+			for i, st := range plan {
+				if st.Kind == "activate" && st.A == c {
+					at = i + 1
+				}
+			}
+			at += rapid.IntRange(0, len(plan)-at).Draw(rt, "deactivate-after")
+			plan = append(plan[:at], append([]c05Step{{Kind: "deactivate", A: c}}, plan[at:]...)...)
+			for k := 0; k < rapid.IntRange(0, 2).Draw(rt, "syncs-while-inactive"); k++ {
+				from := rapid.IntRange(0, len(devs)-1).Draw(rt, "from-while-inactive")
+				plan = append(plan, c05Step{Kind: "sync", A: from, B: c})
+			}
+			plan = append(plan, c05Step{Kind: "activate", A: c})
+		}
 		var trace []string
 		aloneAtActivation, lateSecondDevice, entriesBeforeActivation := false, false, false
+		reactivated, reactivatedAfterNewcomer := false, false
+		activatedWhileAway := map[int]bool{}
+		away := -1
 		for _, st := range plan {
 			switch st.Kind {
 			case "sync":
@@ -182,8 +204,24 @@ func TestVerif_C05_Distribution(t *testing.T) {
 					rt.Fatalf("harness: %v", err)
 				}
 				trace = append(trace, fmt.Sprintf("sync %s->%s", devs[st.A].r.name, devs[st.B].r.name))
+			case "deactivate":
+				d := devs[st.A]
+				if err := d.gc.Close(); err != nil {
+					rt.Fatalf("harness: closing the group context of %s: %v", d.r.name, err)
+				}
+				d.gc = d.r.open(t, g)
+				d.active = false
+				away = st.A
+				trace = append(trace, "deactivate "+d.r.name)
 			case "activate":
 				d := devs[st.A]
+				if away == st.A {
+					reactivated = true
+					reactivatedAfterNewcomer = len(activatedWhileAway) > 0
+					away = -1
+				} else if away >= 0 {
+					activatedWhileAway[st.A] = true
+				}
 				if len(d.gc.MetadataStore().ListMembers()) == 0 {
 					aloneAtActivation = true
 				}
@@ -265,10 +303,11 @@ func TestVerif_C05_Distribution(t *testing.T) {
 				}
 			}
 		}
-		nt := aloneAtActivation || lateSecondDevice || entriesBeforeActivation
+		nt := aloneAtActivation || lateSecondDevice || entriesBeforeActivation || reactivated
 		acct.Case(nt, kind+"|"+strings.Join(trace, ","), func() any {
 			return map[string]any{"kind": "distribution", "group": kind, "devices": len(devs), "plan": trace}
-		}, "distribution", "distribution/"+kind, lbl07(aloneAtActivation, "distribution/activated-before-seeing-anyone"), lbl07(lateSecondDevice, "distribution/second-device-after-secrets"), lbl07(entriesBeforeActivation, "distribution/entries-received-before-activation"), lbl07(entriesBeforeActivation && kind == "contact", "distribution/contact-entries-before-activation"))
+		}, "distribution", "distribution/"+kind, lbl07(aloneAtActivation, "distribution/activated-before-seeing-anyone"), lbl07(lateSecondDevice, "distribution/second-device-after-secrets"), lbl07(entriesBeforeActivation, "distribution/entries-received-before-activation"), lbl07(entriesBeforeActivation && kind == "contact", "distribution/contact-entries-before-activation"),
+			lbl07(reactivated, "distribution/reactivation"), lbl07(reactivatedAfterNewcomer, "distribution/reactivation-after-somebody-joined"))
 	})
 }
 
